@@ -329,9 +329,9 @@ func (c *converter) baseFacts(n ast.Node, wantBasic bool) string {
 		coqfmt.Bool(pure), cst, sg, coqfmt.Bool(istype), multi)
 }
 
-func (c *converter) node(n ast.Node, wantBasic bool) {
-	c.nodes++
-	tag, s, a, b := "", `""`, 0, 0
+// tagOf: the GoAst tag of a node with its string and numeric slots
+func tagOf(n ast.Node) (tag, s string, a, b int) {
+	s = `""`
 	switch x := n.(type) {
 	case *ast.Ident:
 		tag, s = "TIdent", coqfmt.Str(x.Name)
@@ -416,6 +416,12 @@ func (c *converter) node(n ast.Node, wantBasic bool) {
 			tag = "(TOther CNode)"
 		}
 	}
+	return
+}
+
+func (c *converter) node(n ast.Node, wantBasic bool) {
+	c.nodes++
+	tag, s, a, b := tagOf(n)
 	fmt.Fprintf(&c.b, "(Nd %s %d %s %d %d %s ", tag, c.pos(n.Pos()), s, a, b, c.facts(n, wantBasic))
 	kids := childrenOf(n)
 	// truncateCmp reads the underlying basic type of comparison operands and of the single argument of f(x)
